@@ -536,3 +536,99 @@ def unroll_literal_loops(func: ast.FunctionDef) -> ast.FunctionDef:
     ast.fix_missing_locations(new)
     set_parents(new)
     return new
+
+
+# --------------------------------------------------------------------------
+# reaching definitions for structured code (approximation used by the
+# identifier-kind rules): definitions that textually precede the use, are not
+# in a sibling branch of an `if`, and are not shadowed by a later definition
+# that dominates the use.
+# --------------------------------------------------------------------------
+
+def _branch_of(if_node: ast.If, node: ast.AST) -> str | None:
+    for fld in ("body", "orelse"):
+        for st in getattr(if_node, fld):
+            if st is node or any(x is node for x in ast.walk(st)):
+                return fld
+    if any(x is node for x in ast.walk(if_node.test)):
+        return "test"
+    return None
+
+
+def _name_defs(func: ast.AST, name: str):
+    """(statement-or-comprehension node, value expr, kind) defining name."""
+    out = []
+    for node in ast.walk(func):
+        if isinstance(node, ast.Assign):
+            for t in node.targets:
+                if isinstance(t, ast.Name) and t.id == name:
+                    out.append((node, node.value, "assign"))
+                elif isinstance(t, (ast.Tuple, ast.List)) and any(
+                        isinstance(x, ast.Name) and x.id == name
+                        for x in ast.walk(t)):
+                    out.append((node, node.value, "unpack"))
+        elif isinstance(node, ast.AnnAssign) and node.value is not None and \
+                isinstance(node.target, ast.Name) and node.target.id == name:
+            out.append((node, node.value, "assign"))
+        elif isinstance(node, ast.NamedExpr) and node.target.id == name:
+            out.append((node, node.value, "assign"))
+        elif isinstance(node, ast.For) and any(
+                isinstance(x, ast.Name) and x.id == name
+                for x in ast.walk(node.target)):
+            out.append((node, node.iter, "iter"))
+        elif isinstance(node, ast.comprehension) and any(
+                isinstance(x, ast.Name) and x.id == name
+                for x in ast.walk(node.target)):
+            out.append((node, node.iter, "iter"))
+    return out
+
+
+def reaching_defs(func: ast.AST, use: ast.Name):
+    """[(value expr, kind)] of the definitions of use.id that may reach it."""
+    cands = []
+    use_anc = [use] + list(ancestors(use))
+    for stmt, value, kind in _name_defs(func, use.id):
+        if isinstance(stmt, ast.comprehension):
+            comp = parent(stmt)
+            if comp in use_anc:
+                cands.append((stmt, value, kind, True))
+            continue
+        if isinstance(stmt, ast.For):
+            if stmt in use_anc and not any(x is use for x in ast.walk(stmt.iter)):
+                cands.append((stmt, value, kind, True))
+            elif getattr(stmt, "lineno", 0) < getattr(use, "lineno", 0):
+                cands.append((stmt, value, kind, False))
+            continue
+        if getattr(stmt, "lineno", 0) > getattr(use, "lineno", 0):
+            continue
+        if stmt in use_anc and kind != "assign":
+            continue
+        if any(x is use for x in ast.walk(stmt)) and not isinstance(
+                stmt, ast.NamedExpr):
+            # `x = f(x)`: the use on the right sees earlier definitions
+            continue
+        ok = True
+        for a in ancestors(stmt):
+            if isinstance(a, ast.If) and a in use_anc:
+                if _branch_of(a, stmt) != _branch_of(a, use):
+                    ok = False
+                    break
+        if not ok:
+            continue
+        # does this definition dominate the use (its block encloses the use)?
+        blk = parent(stmt)
+        dominating = blk in use_anc
+        cands.append((stmt, value, kind, dominating))
+    if not cands:
+        return []
+    # innermost loop/comprehension binding wins
+    binders = [c for c in cands if c[2] == "iter" and c[3]]
+    if binders:
+        inner = min(binders, key=lambda c: use_anc.index(
+            parent(c[0]) if isinstance(c[0], ast.comprehension) else c[0]))
+        return [(inner[1], inner[2])]
+    doms = [c for c in cands if c[3]]
+    if doms:
+        last = max(doms, key=lambda c: c[0].lineno)
+        cands = [c for c in cands if c[0].lineno >= last[0].lineno]
+    return [(c[1], c[2]) for c in cands]
